@@ -248,6 +248,7 @@ Script random_script(Rng &r, const GenFeatures &f, int n, int id_base) {
         q.version = (f.http10 && r.chance(1, 6)) ? "HTTP/1.0" : "HTTP/1.1";
         std::string host = "h" + rand_token(r, 1, 6) + ".example";
         for (auto &c : host) c = (char) tolower((unsigned char) c);
+        if (r.chance(1, 25)) { static const char *V6[] = {"[::1]", "[2001:db8::1]", "[fe80::1]", "[::ffff:192.0.2.1]"}; host = V6[r.below(4)]; }   // IP-literal hosts are well-formed (RFC 3986 3.2.2)
         if (f.wild_host && r.chance(1, 10)) {
             // a bracketed host literal whose length sits on the usual buffer-size edges (scenarios without ground truth only)
             static const int EDGE[] = {0, 1, 2, 15, 16, 17, 38, 39, 40, 44, 45, 46, 47, 48, 63, 64, 65, 127, 128, 129, 255, 256, 257};
@@ -287,7 +288,7 @@ Script random_script(Rng &r, const GenFeatures &f, int n, int id_base) {
         std::vector<std::pair<Bytes, Bytes>> cookies;
         if (f.cookies && r.chance(1, 4)) {
             HeaderSpec h; h.name = "Cookie"; int k = (int) r.range(1, 4);
-            for (int j = 0; j < k; j++) { Bytes nm = rand_token(r, 1, 6), v = r.chance(1, 5) ? Bytes() : Bytes(rand_token(r, 1, 8)); cookies.push_back(std::make_pair(nm, v)); if (j) h.value += "; "; h.value += nm + "=" + v; }
+            for (int j = 0; j < k; j++) { Bytes nm = rand_token(r, 1, 6), v = r.chance(1, 5) ? Bytes() : Bytes(rand_token(r, 1, 8)); cookies.push_back(std::make_pair(nm, v)); if (j) h.value += "; "; h.value += nm + ((v.empty() && r.chance(1, 3)) ? std::string() : "=" + v); }   // a cookie without '=' is a name with an empty value
             q.headers.insert(q.headers.begin() + (long) r.below(q.headers.size() + 1), h);
         }
         int auth = 0; Bytes user, pass;
